@@ -109,7 +109,7 @@ FRAGS = {
     "glencoe": {"mix": "glencoe", "groups": ["alternative", "or", "mutex", "card"],
                 "types": False, "fcard": False, "abstract": False, "attrs": None,
                 "ops": rm.LOGICAL, "nonlogical": False, "ctc_names": True},
-    "whole": {"mix": "any", "groups": ["alternative", "or", "mutex", "card"],
+    "whole": {"mix": "any", "groups": ["alternative", "or", "mutex", "card", "card_star"],
               "types": True, "fcard": True, "abstract": True, "attrs": "whole",
               "ops": rm.LOGICAL, "nonlogical": True, "ctc_names": True, "single_other": True},
     "plain": {"mix": "any", "groups": ["alternative", "or"],
@@ -359,6 +359,10 @@ def gen_arith(rng, namelist, depth, cfg):
     if depth <= 0 or k < 0.45:
         j = rng.random()
         if j < 0.4:
+            if cfg.get("dotted_refs") and rng.random() < 0.4:
+                # Feature.attribute reference: a dotted term (parts may need quoting each)
+                return ["f", rng.choice(namelist) + "." + rng.choice(
+                    cfg.get("attr_refs") or ["x", "cost", "two words", "a-b"])]
             return ["f", rng.choice(namelist)]
         if j < 0.65:
             return ["i", rng.choice([0, 1, 2, 3, 10, 100])]
@@ -415,6 +419,8 @@ def default_cfg(rng, frag, tier="quick"):
         "max_rels": rng.choice([1, 2, 4]),
         "p_deep": rng.choice([0.2, 0.5, 0.9]),
     }
+    if frag == "uvl":
+        cfg["dotted_refs"] = rng.random() < 0.5
     k = rng.randint(1, len(spec["groups"]))
     cfg["group_kinds"] = rng.sample(spec["groups"], k)
     k = rng.randint(1, len(spec["ops"]))
